@@ -18,6 +18,7 @@ import (
 	"context"
 	"errors"
 	"fmt"
+	"slices"
 	"sort"
 	"strings"
 	"sync"
@@ -517,12 +518,18 @@ func (d *Datastore) runDeviationUpdate(ctx context.Context, dm map[string]sdcpb.
 			continue
 		}
 
+		// all priorities are required to find the overruled intents, with priority 0 the
+		// cache returns the entries of the highest priority only.
 		intentsUpdates := d.cacheClient.Read(ctx, d.Name(), &cache.Opts{
 			Store:         cachepb.Store_INTENDED,
 			Owner:         "",
-			Priority:      0,
+			Priority:      -1,
 			PriorityCount: 0,
 		}, [][]string{upd.GetPath()}, 0)
+		// the cache matches by prefix, keep the entries of exactly this path
+		intentsUpdates = slices.DeleteFunc(intentsUpdates, func(u *cache.Update) bool {
+			return !slices.Equal(u.GetPath(), upd.GetPath())
+		})
 		if len(intentsUpdates) == 0 {
 			log.Debugf("%s: has unhandled config %v: %v", d.Name(), upd.GetPath(), v)
 			// TODO: generate an unhandled config deviation
